@@ -16,6 +16,10 @@ type segCase struct {
 	// LibSA: sa and lcp computed by the library (true) or by the harness's
 	// naive reference (false).
 	LibSA bool `json:"libSA,omitempty"`
+	// Before: earlier Segments calls (minLen, maxLen) made on the same sa/lcp
+	// tables, which the caller never modified in between; the call judged is
+	// (MinLen, MaxLen) and every earlier call is judged as well.
+	Before [][2]int `json:"before,omitempty"`
 }
 
 // checkSegCase decides C10 for one (text, minLen, maxLen).
@@ -38,20 +42,54 @@ func checkSegCase(c segCase) (msg string, bad bool, nontrivial bool) {
 		lcp = naiveLCP(text, sa)
 	}
 	nontrivial = lcpHasPartialDescent(lcp, c.MinLen, c.MaxLen)
-	var calls []segCall
-	saArg := append([]int32(nil), sa...)
-	suffix.Segments(saArg, lcp, c.MinLen, c.MaxLen, func(m int, seg []int32) {
-		calls = append(calls, segCall{m, append([]int32(nil), seg...)})
-	})
-	if c.MaxLen < c.MinLen {
-		// outside the property's quantifier (0 <= minLen <= maxLen): only
-		// "nothing panics" is checked
-		return "", false, false
-	}
-	if err := checkSegments(text, c.MinLen, c.MaxLen, calls); err != nil {
-		return err.Error(), true, nontrivial
+	pairs := append(append([][2]int(nil), c.Before...), [2]int{c.MinLen, c.MaxLen})
+	for ci, pr := range pairs {
+		var calls []segCall
+		// sa may be permuted by Segments (documented); lcp is the caller's
+		// table and is handed over again as it is.
+		saArg := append([]int32(nil), sa...)
+		suffix.Segments(saArg, lcp, pr[0], pr[1], func(m int, seg []int32) {
+			calls = append(calls, segCall{m, append([]int32(nil), seg...)})
+		})
+		if pr[1] < pr[0] {
+			// outside the property's quantifier (0 <= minLen <= maxLen): only
+			// "nothing panics" is checked
+			continue
+		}
+		if err := checkSegments(text, pr[0], pr[1], calls); err != nil {
+			if ci > 0 {
+				return fmt.Sprintf("call %d on the same tables (minLen=%d, maxLen=%d): %v", ci+1, pr[0], pr[1], err), true, nontrivial
+			}
+			return err.Error(), true, nontrivial
+		}
 	}
 	return "", false, nontrivial
+}
+
+// genSegLens draws (minLen, maxLen) for a text of n bytes, with mass on the
+// boundaries of the accepted range (maxLen up to MaxInt32).
+func genSegLens(t *rapid.T, n int) (lo, hi int) {
+	lo = genSize(t, "minLen", n+1, 0, 1, 2, 3)
+	switch weighted(t, "maxKind", 3, 2, 2, 1) {
+	case 0:
+		hi = lo + genSize(t, "maxLenD", n+1, 0, 1, 2)
+	case 1:
+		hi = n + 1
+	case 2:
+		hi = lo
+	default:
+		hi = rapid.SampledFrom([]int{n + 2, 2*n + 7, 1 << 16, 1 << 20, 1<<31 - 2, 1<<31 - 1}).Draw(t, "maxLenBig")
+		if rapid.IntRange(0, 3).Draw(t, "minBig") == 0 {
+			lo = rapid.SampledFrom([]int{n + 1, n + 2, 1 << 16, 1<<31 - 1}).Draw(t, "minLenBig")
+			if lo > hi {
+				hi = lo
+			}
+		}
+	}
+	if rapid.IntRange(0, 19).Draw(t, "maxBelow") == 0 && lo > 0 {
+		hi = lo - 1 // maxLen < minLen: nothing is reported
+	}
+	return lo, hi
 }
 
 func TestC10(t *testing.T) {
@@ -64,17 +102,13 @@ func TestC10(t *testing.T) {
 		text, fam := genSuffixText(t, maxLen)
 		n := len(text)
 		c := segCase{Text: text}
-		c.MinLen = genSize(t, "minLen", n+1, 0, 1, 2, 3)
-		switch weighted(t, "maxKind", 3, 2, 2) {
-		case 0:
-			c.MaxLen = c.MinLen + genSize(t, "maxLenD", n+1, 0, 1, 2)
-		case 1:
-			c.MaxLen = n + 1
-		default:
-			c.MaxLen = c.MinLen
-		}
-		if rapid.IntRange(0, 19).Draw(t, "maxBelow") == 0 && c.MinLen > 0 {
-			c.MaxLen = c.MinLen - 1 // maxLen < minLen: nothing is reported
+		c.MinLen, c.MaxLen = genSegLens(t, n)
+		if rapid.IntRange(0, 9).Draw(t, "again") < 4 {
+			// earlier calls on the same tables
+			for k := rapid.IntRange(1, 2).Draw(t, "nBefore"); k > 0; k-- {
+				lo, hi := genSegLens(t, n)
+				c.Before = append(c.Before, [2]int{lo, hi})
+			}
 		}
 		c.LibSA = rapid.Bool().Draw(t, "libSA")
 		beginCase("C10", "", func() any { return c })
@@ -94,6 +128,12 @@ func TestC10(t *testing.T) {
 		if c.LibSA {
 			cl = append(cl, "sa-by-library")
 		}
+		if len(c.Before) > 0 {
+			cl = append(cl, "repeated-calls-on-same-tables")
+		}
+		if c.MaxLen > n+1 {
+			cl = append(cl, "maxLen-beyond-text")
+		}
 		st.eval(cl, nt, hashJSON(c), fam, func() any { return c })
 	})
 }
@@ -110,6 +150,10 @@ func TestC10Enum(t *testing.T) {
 			for i, c := range s {
 				text[i] = 'a' + c
 			}
+			// every (minLen, maxLen) is judged as a first call; in addition
+			// the pairs run as one sequence of calls on the same tables: the
+			// case of a pair carries the pairs in front of it.
+			var before [][2]int
 			for lo := 0; lo <= len(text)+1; lo++ {
 				for hi := lo; hi <= len(text)+1; hi++ {
 					cnt++
@@ -121,7 +165,22 @@ func TestC10Enum(t *testing.T) {
 						return
 					}
 					st.eval([]string{"enumerated"}, nt, hashJSON(c), "enum", func() any { return c })
+					before = append(before, [2]int{lo, hi})
 				}
+			}
+			if len(before) > 1 {
+				last := before[len(before)-1]
+				// descending maxLen first, then everything ascending
+				seq := [][2]int{{0, 1}, {1, 1}}
+				seq = append(seq, before[:len(before)-1]...)
+				c := segCase{Text: cloneBytes(text), MinLen: last[0], MaxLen: last[1], Before: seq}
+				msg, bad, _ := checkSegCase(c)
+				if bad {
+					recordFailure("C10", "enum", c, msg)
+					t.Errorf("C10 violated on %q (calls repeated on the same tables): %s", text, msg)
+					return
+				}
+				st.class("repeated-calls-on-same-tables")
 			}
 		})
 	}
